@@ -17,6 +17,12 @@ comes before any handler-table dispatch and before the server's pre-auth gate `_
 `body` / `afterExpected` — nothing gets to answer a message that is not the armed one. -/
 theorem expected_check_precedes_dispatch : Generated.C12.expectedCheckBeforeDispatch = true := by decide
 
+/-- **Every well-framed packet reaches the loop** (AST of `Packetizer.read_message`, read on every run): no recursion
+and no loop inside `read_message`, so the packetizer cannot consume a packet on its own — the model's `recv` is one
+packet, one loop iteration, and `_enforce_strict_kex` / the expected-packet test see everything that advanced the
+sequence number. -/
+theorem read_message_delivers_every_packet : Generated.C12.readMessageDeliversEveryPacket = true := by decide
+
 /-- every paramiko kex engine, in both roles, arms a non-empty set of kex-range types at each step -/
 theorem engines_wf (k : KexKind) (server : Bool) : (engineOf k server).WF := by
   cases k <;> cases server <;> simp [Engine.WF, EStep.WF, engineOf, Engine.script]
